@@ -130,7 +130,8 @@ Lemma serve_file_OServe c f p q mime t :
   serve_file c f p = OServe q mime t ->
   q = p /\ exists content, lstat f q = Some (File content) /\ decode content = Some t.
 Proof.
-  destruct (serve_file_cases c f p) as [H|[H|[H|[content [t' [H1 [H2 [_ H3]]]]]]]]; rewrite H; try discriminate.
+  destruct (serve_file_cases c f p) as [H|[H|[H|[content [t' [H1 [H2 [_ H3]]]]]]]];
+    [rewrite H; discriminate..|].
   rewrite H3. intro E; inversion E; subst. split; [reflexivity|]. exists content; auto.
 Qed.
 
@@ -153,7 +154,7 @@ Qed.
 
 Lemma serve_file_not_listing c f p d : serve_file c f p <> OListing d.
 Proof.
-  destruct (serve_file_cases c f p) as [H|[H|[H|[content [t' [H1 [H2 [_ H3]]]]]]]]; rewrite H; discriminate.
+  destruct (serve_file_cases c f p) as [H|[H|[H|[content [t' [H1 [H2 [_ H]]]]]]]]; rewrite H; discriminate.
 Qed.
 
 Lemma listing_inside : forall c f url d,
@@ -176,7 +177,7 @@ Lemma serve_file_status c f p st m :
   (st = 51 /\ m = lit "Not found")%Z \/ (st = 50 /\ m = lit "File too large - use alternative protocol")%Z \/
   (st = 40 /\ m = lit "File encoding error (not UTF-8)")%Z \/ (st = 40 /\ m = lit "Error generating directory listing")%Z.
 Proof.
-  destruct (serve_file_cases c f p) as [H|[H|[H|[content [t' [H1 [H2 [_ H3]]]]]]]]; rewrite H;
+  destruct (serve_file_cases c f p) as [H|[H|[H|[content [t' [H1 [H2 [_ H]]]]]]]]; rewrite H;
     intro E; inversion E; subst; auto.
 Qed.
 
@@ -195,4 +196,494 @@ Proof.
     + destruct (listing_cases f fp) as [E|E]; rewrite E in Ho; [|discriminate].
       inversion Ho; subst. right; right; right. auto.
     + symmetry in Ho. eapply serve_file_status; eauto.
+Qed.
+
+(* ------------------------------------------------------------------ *)
+(* C05: the middleware                                                 *)
+(* ------------------------------------------------------------------ *)
+Lemma first_denial_allow rules locs fp :
+  first_denial rules locs fp = Allow ->
+  forall loc, In loc locs -> apply_rule (find_rule rules loc) fp = Allow.
+Proof.
+  induction locs as [|l r IH]; simpl; intros H loc []; subst.
+  - destruct (apply_rule (find_rule rules loc) fp); congruence.
+  - destruct (apply_rule (find_rule rules l) fp); try congruence. auto.
+Qed.
+
+Lemma decide_inv rules url fp v :
+  decide rules url fp = Ok v -> exists p, canon_path url = Ok p /\ v = first_denial rules (candidates p) fp.
+Proof.
+  unfold decide. destruct (canon_path url) as [p| |]; try discriminate.
+  intro H; inversion H; subst. exists p; auto.
+Qed.
+
+Lemma all_candidates : forall rules url fp p,
+  decide rules url fp = Ok Allow -> canon_path url = Ok p ->
+  forall loc, In loc (candidates p) -> Spec.C05.admits (Spec.C05.covering rules loc) fp = true.
+Proof.
+  intros rules url fp p H Hp loc Hin.
+  apply decide_inv in H. destruct H as [p' [Hp' Hv]]. rewrite Hp in Hp'. inversion Hp'; subst p'.
+  unfold Spec.C05.admits. change (Spec.C05.covering rules loc) with (find_rule rules loc).
+  rewrite (first_denial_allow rules (candidates p) fp (eq_sym Hv) loc Hin). reflexivity.
+Qed.
+
+Lemma apply_rule_status r fp v :
+  apply_rule r fp = v -> v <> Allow ->
+  (v = Deny60 /\ fp = None) \/ (v = Deny61 /\ exists f, fp = Some f).
+Proof.
+  unfold apply_rule. destruct r as [r|]; [|congruence].
+  destruct fp as [f|].
+  - destruct (ru_allowed r) as [l|]; [|congruence].
+    destruct (existsb (eqb f) l); [congruence|]. intros <- _. right. split; eauto.
+  - destruct (ru_require r || _); [|congruence]. intros <- _. left; auto.
+Qed.
+
+Lemma first_denial_status rules locs fp v :
+  first_denial rules locs fp = v -> v <> Allow ->
+  (v = Deny60 /\ fp = None) \/ (v = Deny61 /\ exists f, fp = Some f).
+Proof.
+  induction locs as [|l r IH]; simpl; [congruence|].
+  destruct (apply_rule (find_rule rules l) fp) eqn:E; auto;
+    intros <- Hv; eapply apply_rule_status; eauto.
+Qed.
+
+Lemma status : forall rules url fp v,
+  decide rules url fp = Ok v -> v <> Allow ->
+  (v = Deny60 /\ fp = None) \/ (v = Deny61 /\ exists f, fp = Some f).
+Proof.
+  intros rules url fp v H Hv. apply decide_inv in H. destruct H as [p [_ E]].
+  eapply first_denial_status; eauto.
+Qed.
+
+Lemma empty_list_admits_nobody : forall t fp,
+  tr_allowed t = Some [] -> apply_rule (Some (rule_of_toml t)) fp <> Allow.
+Proof.
+  intros t fp H. unfold apply_rule, rule_of_toml; simpl. rewrite H.
+  destruct fp; simpl; [discriminate|]. rewrite orb_true_r. discriminate.
+Qed.
+
+(* ------------------------------------------------------------------ *)
+(* C14: uploads                                                        *)
+(* ------------------------------------------------------------------ *)
+Lemma lstat_set_same f p n : lstat (set_node f p n) p = Some n.
+Proof.
+  induction f as [|[q m] f IH]; simpl.
+  - rewrite path_eqb_refl; reflexivity.
+  - destruct (path_eqb p q) eqn:E; simpl; rewrite E; auto.
+Qed.
+Lemma lstat_set_other f p n q : path_eqb q p = false -> lstat (set_node f p n) q = lstat f q.
+Proof.
+  intro H. induction f as [|[k m] f IH]; simpl.
+  - rewrite H; reflexivity.
+  - destruct (path_eqb p k) eqn:E; simpl.
+    + apply path_eqb_eq in E; subst k. rewrite H. reflexivity.
+    + destruct (path_eqb q k); auto.
+Qed.
+Lemma lstat_remove_same f p : lstat (remove_node f p) p = None.
+Proof.
+  induction f as [|[q m] f IH]; simpl; auto.
+  destruct (path_eqb p q) eqn:E; simpl; [auto|rewrite E; auto].
+Qed.
+Lemma lstat_remove_other f p q : path_eqb q p = false -> lstat (remove_node f p) q = lstat f q.
+Proof.
+  intro H. induction f as [|[k m] f IH]; simpl; auto.
+  destruct (path_eqb p k) eqn:E; simpl.
+  - apply path_eqb_eq in E; subst k. rewrite H. exact IH.
+  - destruct (path_eqb q k); auto.
+Qed.
+Lemma lstat_app f g p : lstat (f ++ g) p = match lstat f p with Some n => Some n | None => lstat g p end.
+Proof. induction f as [|[k m] f IH]; simpl; auto. destruct (path_eqb p k); auto. Qed.
+
+(* mkdirs only ever adds directories at paths where nothing was *)
+Lemma mkdirs_lstat : forall fuel f pre rest f1,
+  mkdirs fuel f pre rest = Some f1 ->
+  forall p, lstat f1 p = lstat f p \/ (lstat f p = None /\ lstat f1 p = Some Dir).
+Proof.
+  induction fuel as [|fu IH]; simpl; intros f pre rest f1 H p; [discriminate|].
+  destruct rest as [|n rest']; [inversion H; auto|].
+  destruct (lstat f (pre ++ [n])) as [[ct| |tg]|] eqn:E; try discriminate.
+  - eapply IH; eauto.
+  - destruct (follow f (pre ++ [n])) as [[| |]|]; try discriminate. eapply IH; eauto.
+  - destruct (IH _ _ _ _ H p) as [H1|[H1 H2]].
+    + rewrite H1. rewrite lstat_app. destruct (lstat f p) eqn:E2; auto.
+      simpl. destruct (path_eqb p (pre ++ [n])); auto.
+    + rewrite lstat_app in H1. destruct (lstat f p) eqn:E2; [discriminate|]. auto.
+Qed.
+
+Lemma resolve_target_prefix c f s t :
+  resolve_target c f s = Ok (Some t) -> path_prefixb (u_root c) t = true.
+Proof.
+  unfold resolve_target. destruct (unquote s) as [up| |]; try discriminate.
+  destruct (canon_strict (comps up) []) as [segs|]; try discriminate.
+  destruct (existsb (mem 0%N) segs); try discriminate.
+  destruct (resolve_fully f (u_root c) segs) as [t'| |]; try discriminate.
+  destruct (path_prefixb (u_root c) t') eqn:E; try discriminate.
+  intro H; inversion H; subst; assumption.
+Qed.
+
+Definition u_ok : uout := UResp 20 (lit "text/gemini").
+
+Open Scope N_scope.
+Inductive upload_shape (c : ucfg) (f : fs) (r : ureq) (flt : fault) : uout -> fs -> Prop :=
+| USame out : out <> u_ok -> upload_shape c f r flt out f
+| UDelete t : Spec.C14.guards_ok c r = true -> q_size r = 0 -> u_delete c = true ->
+    resolve_target c f (q_path r) = Ok (Some t) ->
+    upload_shape c f r flt u_ok (remove_node f t)
+| UPartial t f1 out : out <> u_ok -> mkdirs (S (length t)) f [] (removelast t) = Some f1 ->
+    upload_shape c f r flt out f1
+| UStore t f1 : Spec.C14.guards_ok c r = true -> q_size r <> 0 -> flt = None ->
+    resolve_target c f (q_path r) = Ok (Some t) ->
+    mkdirs (S (length t)) f [] (removelast t) = Some f1 ->
+    upload_shape c f r flt u_ok (set_node f1 t (File (q_content r))).
+
+Lemma upload_shape_ok c f r flt : upload_shape c f r flt (fst (handle_upload c f r flt)) (snd (handle_upload c f r flt)).
+Proof.
+  unfold handle_upload.
+  destruct (token_ok c (q_token r)) eqn:E1; cbn [fst snd negb]; [|apply USame; discriminate].
+  destruct (u_max c <? q_size r) eqn:E2; cbn [fst snd negb]; [apply USame; discriminate|].
+  destruct (match u_types c with Some (t :: ts) => negb (existsb (eqb (q_mime r)) (t :: ts)) | _ => false end) eqn:E3;
+    cbn [fst snd negb]; [apply USame; discriminate|].
+  assert (G : (if q_size r =? 0 then u_delete c else true) = true -> Spec.C14.guards_ok c r = true).
+  { intro G. unfold Spec.C14.guards_ok. rewrite E1, G.
+    assert (q_size r <=? u_max c = true) as -> by lia.
+    destruct (u_types c) as [[|t ts]|]; cbn [fst snd negb]; auto.
+    apply negb_false_iff in E3. rewrite E3. reflexivity. }
+  destruct (q_size r =? 0) eqn:E4.
+  - destruct (u_delete c) eqn:E5; cbn [fst snd negb]; [|apply USame; discriminate].
+    destruct (resolve_target c f (q_path r)) as [[t|]| |] eqn:E6; cbn [fst snd negb]; try (apply USame; discriminate).
+    destruct (name_too_long t); cbn [fst snd negb]; [apply USame; discriminate|].
+    destruct (lstat f t) as [[ct| |tg]|]; cbn [fst snd negb]; try (apply USame; discriminate);
+      (apply UDelete; auto; lia).
+  - destruct (resolve_target c f (q_path r)) as [[t|]| |] eqn:E6; cbn [fst snd negb]; try (apply USame; discriminate).
+    destruct (name_too_long t); cbn [fst snd negb]; [apply USame; discriminate|].
+    destruct (mkdirs (S (length t)) f [] (removelast t)) as [f1|] eqn:E7; cbn [fst snd negb]; [|apply USame; discriminate].
+    destruct flt as [k|]; cbn [fst snd negb]; [eapply UPartial; eauto; discriminate|].
+    assert (St : forall out f2, (out, f2) = match t with
+                       | [] => (UResp 40 (lit "Upload failed"), f1)
+                       | _ => (UResp 20 (lit "text/gemini"), set_node f1 t (File (q_content r)))
+                       end -> upload_shape c f r None out f2).
+    { intros out f2 H. destruct t as [|x t']; inversion H; subst.
+      - eapply UPartial; eauto; discriminate.
+      - eapply UStore; eauto. lia. }
+    destruct (lstat f1 t) as [[ct| |tg]|]; cbn [fst snd negb];
+      try (apply St; destruct t; reflexivity).
+    eapply UPartial; eauto; discriminate.
+Qed.
+
+Lemma upload_shape_eq c f r flt out f' :
+  handle_upload c f r flt = (out, f') -> upload_shape c f r flt out f'.
+Proof. intro H. pose proof (upload_shape_ok c f r flt) as S. rewrite H in S. exact S. Qed.
+
+Lemma exact : forall c f r f' t,
+  handle_upload c f r None = (UResp 20 (lit "text/gemini"), f') -> q_size r <> 0 ->
+  resolve_target c f (q_path r) = Ok (Some t) ->
+  path_prefixb (u_root c) t = true /\ lstat f' t = Some (File (q_content r)).
+Proof.
+  intros c f r f' t H Hs Ht. apply upload_shape_eq in H.
+  inversion H as [out Ho|t' G Z D Rt|t' f1 out Ho Mk|t' f1 G Z Fl Rt Mk]; subst.
+  - exfalso; apply Ho; reflexivity.
+  - contradiction.
+  - exfalso; apply Ho; reflexivity.
+  - rewrite Ht in Rt. inversion Rt; subst t'. split.
+    + eapply resolve_target_prefix; eauto.
+    + apply lstat_set_same.
+Qed.
+
+Lemma delete_ok : forall c f r flt f' t,
+  handle_upload c f r flt = (UResp 20 (lit "text/gemini"), f') -> q_size r = 0 ->
+  resolve_target c f (q_path r) = Ok (Some t) ->
+  lstat f' t = None /\ u_delete c = true.
+Proof.
+  intros c f r flt f' t H Hs Ht. apply upload_shape_eq in H.
+  inversion H as [out Ho|t' G Z D Rt|t' f1 out Ho Mk|t' f1 G Z Fl Rt Mk]; subst.
+  - exfalso; apply Ho; reflexivity.
+  - rewrite Ht in Rt. inversion Rt; subst t'. split; [apply lstat_remove_same|assumption].
+  - exfalso; apply Ho; reflexivity.
+  - contradiction.
+Qed.
+
+Lemma is_file_None_Dir a b : a = None -> b = Some Dir ->
+  Spec.C14.is_file a = true \/ Spec.C14.is_file b = true -> False.
+Proof. intros -> ->. simpl. intros []; discriminate. Qed.
+
+Lemma guards : forall c f r flt out f' p,
+  handle_upload c f r flt = (out, f') -> lstat f' p <> lstat f p ->
+  (Spec.C14.is_file (lstat f p) = true \/ Spec.C14.is_file (lstat f' p) = true) ->
+  Spec.C14.guards_ok c r = true.
+Proof.
+  intros c f r flt out f' p H Hne Hf. apply upload_shape_eq in H.
+  inversion H as [out' Ho|t' G Z D Rt|t' f1 out' Ho Mk|t' f1 G Z Fl Rt Mk]; subst.
+  - congruence.
+  - assumption.
+  - destruct (mkdirs_lstat _ _ _ _ _ Mk p) as [E|[E1 E2]]; [congruence|].
+    exfalso; eapply is_file_None_Dir; eauto.
+  - assumption.
+Qed.
+
+Lemma failure_noop : forall c f r flt out f' p,
+  handle_upload c f r flt = (out, f') -> out <> UResp 20 (lit "text/gemini") ->
+  Spec.C14.is_file (lstat f p) = true \/ Spec.C14.is_file (lstat f' p) = true -> lstat f' p = lstat f p.
+Proof.
+  intros c f r flt out f' p H Hout Hf. apply upload_shape_eq in H.
+  inversion H as [out' Ho|t' G Z D Rt|t' f1 out' Ho Mk|t' f1 G Z Fl Rt Mk]; subst.
+  - reflexivity.
+  - exfalso; apply Hout; reflexivity.
+  - destruct (mkdirs_lstat _ _ _ _ _ Mk p) as [E|[E1 E2]]; [congruence|].
+    exfalso; eapply is_file_None_Dir; eauto.
+  - exfalso; apply Hout; reflexivity.
+Qed.
+
+Lemma frame : forall c f r flt out f' p,
+  handle_upload c f r flt = (out, f') ->
+  lstat f' p <> lstat f p ->
+  (lstat f p = None /\ lstat f' p = Some Dir) \/
+  (out = UResp 20 (lit "text/gemini") /\ resolve_target c f (q_path r) = Ok (Some p)).
+Proof.
+  intros c f r flt out f' p H Hne. apply upload_shape_eq in H.
+  inversion H as [out' Ho|t' G Z D Rt|t' f1 out' Ho Mk|t' f1 G Z Fl Rt Mk]; subst.
+  - congruence.
+  - destruct (path_eqb p t') eqn:E.
+    + apply path_eqb_eq in E; subst. right; auto.
+    + rewrite lstat_remove_other in Hne by assumption. congruence.
+  - destruct (mkdirs_lstat _ _ _ _ _ Mk p) as [E|[E1 E2]]; [congruence|]. left; auto.
+  - destruct (path_eqb p t') eqn:E.
+    + apply path_eqb_eq in E; subst. right; auto.
+    + rewrite lstat_set_other in * by assumption.
+      destruct (mkdirs_lstat _ _ _ _ _ Mk p) as [E'|[E1 E2]]; [congruence|]. left; auto.
+Qed.
+Close Scope N_scope.
+
+(* ------------------------------------------------------------------ *)
+(* link-free trees: realpath is lexical normalisation                  *)
+(* ------------------------------------------------------------------ *)
+Definition linkfree (f : fs) : Prop :=
+  forall p n, In (p, n) f -> match n with Link _ => False | _ => True end.
+
+Lemma lstat_In f p n : lstat f p = Some n -> In (p, n) f.
+Proof.
+  induction f as [|[q m] f IH]; simpl; [discriminate|].
+  destruct (path_eqb p q) eqn:E.
+  - intro H; inversion H; subst. apply path_eqb_eq in E; subst. left; reflexivity.
+  - intro H; right; auto.
+Qed.
+Lemma linkfree_lstat f p t : linkfree f -> lstat f p <> Some (Link t).
+Proof. intros L H. apply lstat_In in H. apply L in H. exact H. Qed.
+
+Lemma join_real_linkfree f : linkfree f -> forall fuel cur rest v,
+  join_real fuel f cur rest v = RFuel \/ join_real fuel f cur rest v = RPath (lexnorm rest cur).
+Proof.
+  intros L. induction fuel as [|fu IH]; intros cur rest v; [left; reflexivity|].
+  destruct rest as [|n rest']; [right; reflexivity|].
+  cbn [join_real lexnorm].
+  destruct (match n with [] => true | _ => false end || eqb n dot); [apply IH|].
+  destruct (eqb n dotdot); [apply IH|].
+  destruct (lstat f (cur ++ [n])) as [[ct| |tg]|] eqn:E; try apply IH.
+  exfalso; eapply linkfree_lstat; eauto.
+Qed.
+
+Lemma join_real_linkfree_fuel f : linkfree f -> forall fuel cur rest v,
+  (length rest < fuel)%nat -> join_real fuel f cur rest v = RPath (lexnorm rest cur).
+Proof.
+  intros L. induction fuel as [|fu IH]; intros cur rest v Hl; [lia|].
+  destruct rest as [|n rest']; [reflexivity|].
+  cbn [join_real lexnorm]. simpl in Hl.
+  destruct (match n with [] => true | _ => false end || eqb n dot); [apply IH; lia|].
+  destruct (eqb n dotdot); [apply IH; lia|].
+  destruct (lstat f (cur ++ [n])) as [[ct| |tg]|] eqn:E; try (apply IH; lia).
+  exfalso; eapply linkfree_lstat; eauto.
+Qed.
+
+Lemma resolve_fully_linkfree f b r p : linkfree f -> resolve_fully f b r = FPath p -> p = lexnorm r b.
+Proof.
+  intros L. unfold resolve_fully, realpath.
+  destruct (join_real_linkfree f L realpath_fuel b r []) as [E|E]; rewrite E; [discriminate|].
+  destruct (join_real realpath_fuel f [] (lexnorm r b) []) as [q| |]; try discriminate.
+  destruct (path_eqb q (lexnorm r b)); try discriminate. intro H; inversion H; reflexivity.
+Qed.
+
+(* names that normalisation keeps *)
+Definition goodn (n : str) : Prop := n <> [] /\ n <> dot /\ n <> dotdot.
+Lemma goodn_tests n : goodn n <->
+  (match n with [] => true | _ => false end || eqb n dot) = false /\ eqb n dotdot = false.
+Proof.
+  unfold goodn. rewrite orb_false_iff, !eqb_neq. destruct n; intuition congruence.
+Qed.
+
+Lemma lexnorm_good segs : Forall goodn segs -> forall acc, lexnorm segs acc = acc ++ segs.
+Proof.
+  induction 1 as [|n r Hn Hr IH]; intro acc; simpl; [rewrite app_nil_r; reflexivity|].
+  apply goodn_tests in Hn. destruct Hn as [-> ->]. rewrite IH, <- app_assoc. reflexivity.
+Qed.
+
+Lemma Forall_removelast {A} (P : A -> Prop) l : Forall P l -> Forall P (removelast l).
+Proof. induction 1 as [|x l Hx Hl IH]; simpl; auto. destruct l; auto. Qed.
+Lemma In_removelast {A} (x : A) l : In x (removelast l) -> In x l.
+Proof. induction l as [|y l IH]; simpl; auto. destruct l; [intros []|]. intros [H|H]; auto. Qed.
+
+Lemma canon_strict_spec : forall cs acc segs,
+  canon_strict cs acc = Some segs ->
+  canon_segs cs acc = segs /\ (Forall goodn acc -> Forall goodn segs) /\
+  (forall x, In x segs -> In x acc \/ In x cs).
+Proof.
+  induction cs as [|n r IH]; simpl; intros acc segs H.
+  - inversion H; subst. auto.
+  - destruct (match n with [] => true | _ => false end || eqb n dot) eqn:E1.
+    { destruct (IH _ _ H) as [A [B C]]. split; [exact A|split; [exact B|]].
+      intros x Hx. destruct (C x Hx); auto. }
+    destruct (eqb n dotdot) eqn:E2.
+    { destruct acc as [|a acc']; [discriminate|].
+      destruct (IH _ _ H) as [A [B C]]. split; [exact A|split].
+      - intro F. apply B. apply Forall_removelast. assumption.
+      - intros x Hx. destruct (C x Hx) as [D|D]; auto. left. apply In_removelast. assumption. }
+    destruct (IH _ _ H) as [A [B C]]. split; [exact A|split].
+    + intro F. apply B. apply Forall_app. split; auto. constructor; auto. apply goodn_tests. auto.
+    + intros x Hx. destruct (C x Hx) as [D|D]; auto. apply in_app_or in D. destruct D as [D|[D|[]]]; auto.
+      subst. right; left; reflexivity.
+Qed.
+
+Lemma split_on_aux_notin c s : forall cur, ~ In c cur ->
+  forall x, In x (split_on_aux c cur s) -> ~ In c x.
+Proof.
+  induction s as [|a s IH]; simpl; intros cur Hc x Hx.
+  - destruct Hx as [<-|[]]. rewrite <- in_rev. assumption.
+  - destruct (a =? c)%N eqn:E.
+    + destruct Hx as [<-|Hx]; [rewrite <- in_rev; assumption|]. eapply IH; eauto.
+    + eapply IH; [|eassumption]. apply N.eqb_neq in E. intros [H|H]; congruence.
+Qed.
+Lemma comps_noslash s x : In x (comps s) -> ~ In ch_slash x.
+Proof. unfold comps, split_on. apply split_on_aux_notin. intros []. Qed.
+
+(* ------------------------------------------------------------------ *)
+(* join_slash, rstrip                                                  *)
+(* ------------------------------------------------------------------ *)
+Lemma join_slash_cons n r : r <> [] -> join_slash (n :: r) = n ++ ch_slash :: join_slash r.
+Proof. destruct r; [contradiction|reflexivity]. Qed.
+Lemma join_slash_snoc segs i : segs <> [] -> join_slash (segs ++ [i]) = join_slash segs ++ ch_slash :: i.
+Proof.
+  induction segs as [|n r IH]; [contradiction|]. intros _.
+  destruct r as [|m r']; [reflexivity|].
+  change ((n :: m :: r') ++ [i]) with (n :: ((m :: r') ++ [i])).
+  rewrite join_slash_cons by (simpl; discriminate).
+  rewrite IH by discriminate. rewrite (join_slash_cons n (m :: r')) by discriminate.
+  rewrite <- app_assoc. reflexivity.
+Qed.
+Lemma join_slash_last segs : segs <> [] ->
+  (forall n, In n segs -> n <> [] /\ ~ In ch_slash n) ->
+  exists b x, join_slash segs = b ++ [x] /\ x <> ch_slash.
+Proof.
+  induction segs as [|n r IH]; [contradiction|]. intros _ H.
+  destruct r as [|m r'].
+  - destruct (H n (or_introl eq_refl)) as [Hn Hs]. simpl.
+    exists (removelast n), (last n 0%N). split; [apply app_removelast_last; assumption|].
+    intro E. apply Hs. rewrite <- E. clear -Hn.
+    induction n as [|a n IHn]; [contradiction|]. destruct n; [left; reflexivity|].
+    right. apply IHn. discriminate.
+  - destruct IH as [b [x [E Hx]]]; [discriminate|intros k Hk; apply H; right; assumption|].
+    rewrite join_slash_cons by discriminate. rewrite E.
+    exists (n ++ ch_slash :: b), x. split; [rewrite <- app_assoc; reflexivity|assumption].
+Qed.
+
+Lemma rstrip_by_snoc_true p s x : p x = true -> rstrip_by p (s ++ [x]) = rstrip_by p s.
+Proof. intro H. unfold rstrip_by. rewrite rev_app_distr. simpl. rewrite H. reflexivity. Qed.
+Lemma rstrip_by_snoc_false p s x : p x = false -> rstrip_by p (s ++ [x]) = s ++ [x].
+Proof. intro H. unfold rstrip_by. rewrite rev_app_distr. simpl. rewrite H. simpl.
+  rewrite rev_involutive. reflexivity. Qed.
+
+Definition base_of (segs : list str) : str :=
+  match segs with [] => [] | _ => ch_slash :: join_slash segs end.
+
+Lemma rstrip_canon segs e :
+  (forall n, In n segs -> n <> [] /\ ~ In ch_slash n) ->
+  (e = [] \/ (segs <> [] /\ e = [ch_slash])) ->
+  rstrip_slashes (ch_slash :: join_slash segs ++ e) = base_of segs.
+Proof.
+  intros H He. destruct segs as [|n r].
+  - destruct He as [->|[He _]]; [reflexivity|congruence].
+  - destruct (join_slash_last (n :: r)) as [b [x [E Hx]]]; [discriminate|assumption|].
+    unfold base_of. rewrite E. unfold rstrip_slashes.
+    assert (Px : (x =? ch_slash)%N = false) by (apply N.eqb_neq; assumption).
+    destruct He as [->|[_ ->]].
+    + rewrite app_nil_r. change (ch_slash :: b ++ [x]) with ((ch_slash :: b) ++ [x]).
+      apply rstrip_by_snoc_false. assumption.
+    + change (ch_slash :: (b ++ [x]) ++ [ch_slash]) with (((ch_slash :: b) ++ [x]) ++ [ch_slash]).
+      rewrite rstrip_by_snoc_true by reflexivity.
+      change (ch_slash :: b ++ [x]) with ((ch_slash :: b) ++ [x]).
+      apply rstrip_by_snoc_false. assumption.
+Qed.
+
+Lemma strip_prefix_app r x : Spec.C05.strip_prefix r (r ++ x) = Some x.
+Proof. induction r; simpl; auto. rewrite eqb_refl. assumption. Qed.
+
+(* what the middleware and the handler agree on *)
+Lemma canon_path_of_handle url up segs p :
+  unquote url = Ok up -> canon_strict (comps up) [] = Some segs -> canon_path url = Ok p ->
+  Forall goodn segs /\ (forall n, In n segs -> ~ In ch_slash n) /\
+  exists e, p = ch_slash :: join_slash segs ++ e /\ (e = [] \/ (segs <> [] /\ e = [ch_slash])).
+Proof.
+  intros U C P.
+  assert (G : Forall goodn segs /\ (forall n, In n segs -> ~ In ch_slash n) /\ canon_segs (comps up) [] = segs).
+  { destruct (canon_strict_spec _ _ _ C) as [A [B D]]. repeat split; auto.
+    intros n Hn. destruct (D n Hn) as [[]|Hc]. eapply comps_noslash; eauto. }
+  destruct G as [G1 [G2 G3]]. split; [assumption|]. split; [assumption|].
+  destruct url as [|a u].
+  - unfold unquote in U. simpl in U. inversion U; subst up.
+    simpl in C. inversion C; subst segs.
+    unfold canon_path, unquote in P. simpl in P. inversion P; subst p.
+    exists []. auto.
+  - unfold canon_path in P. rewrite U in P. rewrite G3 in P. inversion P; subst p.
+    destruct segs as [|n r]; [exists []; auto|].
+    destruct (ends_slash up); [exists [ch_slash]; split; auto; right; split; [discriminate|auto]|exists []; auto].
+Qed.
+
+Lemma goodn_index i : In i index_names -> goodn i.
+Proof. intros [<-|[<-|[]]]; repeat split; discriminate. Qed.
+
+Lemma location_is_candidate : forall c f url o loc p,
+  (forall q n, In (q, n) f -> match n with Link _ => False | _ => True end) ->
+  s_indices c = index_names ->
+  handle c f url = o -> Spec.C05.location (s_root c) o = Some loc -> canon_path url = Ok p ->
+  In loc (candidates p).
+Proof.
+  intros c f url o loc p L Hi H Hl Hp.
+  pose proof (handle_shape_ok c f url) as S. rewrite H in S. clear H.
+  inversion S as [| | |up segs fp o' U Cn Z Rf Pf Nl Alt]; subst; try discriminate.
+  destruct (canon_path_of_handle _ _ _ _ U Cn Hp) as [G [NS [e [-> He]]]].
+  assert (NS' : forall n, In n segs -> n <> [] /\ ~ In ch_slash n).
+  { intros n Hn. split; [|auto]. rewrite Forall_forall in G. apply (G n Hn). }
+  unfold candidates. rewrite (rstrip_canon segs e NS' He).
+  apply (resolve_fully_linkfree _ _ _ _ L) in Rf. rewrite (lexnorm_good _ G) in Rf. subst fp.
+  destruct Alt as [[Hd Ht]|[[Hd [Ht [Hls Ho]]]|[Hd Ho]]].
+  - apply try_indices_cases in Ht. destruct Ht as [->|[i [ip [Hin [Hr [Hpp Ho]]]]]]; [discriminate|].
+    apply (resolve_fully_linkfree _ _ _ _ L) in Hr. rewrite Hi in Hin.
+    rewrite (lexnorm_good [i]) in Hr by (constructor; [apply goodn_index; assumption|constructor]).
+    subst ip.
+    destruct (serve_file_cases c f ((s_root c ++ segs) ++ [i])) as [E|[E|[E|[ct [t [_ [_ [_ E]]]]]]]];
+      rewrite E in Ho; subst o; try discriminate.
+    simpl in Hl. rewrite <- app_assoc, strip_prefix_app in Hl. inversion Hl; subst loc. clear Hl.
+    apply in_or_app; right. apply in_or_app; right.
+    destruct segs as [|n r].
+    + simpl. apply in_map_iff. exists i. auto.
+    + rewrite join_slash_snoc by discriminate. apply in_map_iff. exists i. split; [|assumption].
+      unfold base_of. simpl. rewrite <- app_assoc. reflexivity.
+  - destruct (listing_cases f (s_root c ++ segs)) as [E|E]; rewrite E in Ho; subst o; [discriminate|].
+    simpl in Hl. rewrite strip_prefix_app in Hl.
+    apply in_or_app; right. left.
+    destruct segs as [|n r]; inversion Hl; reflexivity.
+  - destruct (serve_file_cases c f (s_root c ++ segs)) as [E|[E|[E|[ct [t [_ [_ [_ E]]]]]]]];
+      rewrite E in Ho; subst o; try discriminate.
+    simpl in Hl. rewrite strip_prefix_app in Hl. inversion Hl; subst loc. clear Hl.
+    destruct segs as [|n r].
+    + apply in_or_app; right. left. reflexivity.
+    + apply in_or_app; left. left. reflexivity.
+Qed.
+
+Lemma enforced : forall c f rules url fp o loc,
+  (forall q n, In (q, n) f -> match n with Link _ => False | _ => True end) ->
+  s_indices c = index_names ->
+  decide rules url fp = Ok Allow -> handle c f url = o -> Spec.C05.location (s_root c) o = Some loc ->
+  Spec.C05.admits (Spec.C05.covering rules loc) fp = true.
+Proof.
+  intros c f rules url fp o loc L Hi D H Hl.
+  destruct (decide_inv _ _ _ _ D) as [p [Hp _]].
+  eapply all_candidates; eauto. eapply location_is_candidate; eauto.
 Qed.
